@@ -3,11 +3,11 @@ import vlib as V
 ID = "C01"
 PROP = {
     "props_module": "FV.Props.C01",
-    "generate": [V.generate_params],
+    "generate": [V.generate_locks, V.generate_params],
     "builders": {"rt": V.build_rt},
-    "suites": [("rt", "c01reg", {"quick": 6000, "thorough": 1500000}), ("rt", "c01nats", {"quick": 150, "thorough": 20000}), ("rt", "c13req", {"quick": 40, "thorough": 3000})],
+    "suites": [("rt", "c01reg", {"quick": 6000, "thorough": 1500000}), ("rt", "c06free", {"quick": 20000, "thorough": 1000000}), ("rt", "c01nats", {"quick": 150, "thorough": 20000}), ("rt", "c13req", {"quick": 40, "thorough": 3000})],
     "rule": 'c01reg: 1-4 callers with distinct real FContexts on one real registry; action lists of length 4-32 over register/recv/timeout/sendError/unregister/readerLookup(own, other, never-issued op id; any tag)/readerSend, the reader split at the yield point; observable after the run: per caller pc/outcome/channel content, registry size, reader state. c13req: real fAdapterTransport.Request calls with real timeouts against a scripted peer.',
-    "trusted": ["Modelled, not verified: Go channels (buffered send/receive, select), sync.RWMutex atomicity of Register/Unregister/lookup, goroutine scheduling; one Action = one statement group that is atomic in the code (checked by schedule forcing at the yield point registry.dispatch.presend)"] + ["harness/extract (go/ast) regenerates FV/Generated/Params.lean: dispatch send blocking?, result channel capacities, `go f.send`, deferred Unregister"],
+    "trusted": ["harness/locks (go/ast, lexical, no type checker) regenerates FV/Generated/Locks.lean: per function the mutexes it locks, the calls it makes under a lock, re-locks and returns with a lock held; calls through interfaces / function values / other packages are not followed; FBaseProcessorFunction.writeMu is taken to be FBaseProcessor.writeMu", "Modelled, not verified: Go channels (buffered send/receive, select), sync.RWMutex atomicity of Register/Unregister/lookup, goroutine scheduling; one Action = one statement group that is atomic in the code (checked by schedule forcing at the yield point registry.dispatch.presend)"] + ["harness/extract (go/ast) regenerates FV/Generated/Params.lean: dispatch send blocking?, result channel capacities, `go f.send`, deferred Unregister"],
     "level_text": "Theorems over the correlation model for ANY number of callers and ANY action list: a request completes successfully only with a frame carrying its own op id (invariant over all reachable states); every frame in a result channel is its owner's; frames for unknown / completed / timed-out op ids leave the state unchanged; frame rule (an action not touching caller j leaves j untouched); registry empty when all calls returned. Tie: schedule forcing on the real registry + real adapter transport runs.",
     "level_note": "Trusted: Lean kernel; the model's atomicity granularity (Go memory model, sync.RWMutex); harness. Hypothesis: callers' op ids pairwise distinct (C17). The adapter transport ignoring Register's error for a context reused while in flight is outside the statement.",
     "assumptions": ['op ids of concurrent requests are pairwise distinct (the property\'s "distinct FContexts"; C17)'],
